@@ -354,7 +354,6 @@ def r4_raise_census(ctx):
 
 
 # --------------------------------------------------------------------------------------------- R5
-@shape_rule
 def r5_boundary_tie(ctx):
     prog = ctx.prog
     f = prog.find_func("elect_cands_from_set_ranking")
@@ -368,7 +367,12 @@ def r5_boundary_tie(ctx):
         ctx.undecided(f, f.node, "election loop", f"{len(loops)} while loops; expected one")
         return
     loop = loops[0]
+    tb_calls0 = astx.calls_in(f.node, "tiebreak_set")
+    if tb_calls0 and all(astx.enclosing(c, pm, ast.While) is not loop for c in tb_calls0):
+        ctx.undecided(f, loop, "selector shape", "the boundary tie is resolved outside the election loop: not the append / overshoot arrangement these clauses describe")
+        return
     N = Normalizer(f.node, inline=False, int_atoms=lambda a: True)
+    Ni = Normalizer(f.node, inline=True, int_atoms=lambda a: True)  # reads single-assignment temporaries through (unless stale)
     lk = bool_key(N.guard(loop.test))
     mt = re.fullmatch(rf"not ge\((\w+) - {p_m}, 0\)|not ge\(-{p_m} \+ (\w+), 0\)", lk)
     # canonical key for `cnt < m` is `not ge(cnt - m, 0)` or with the other sign ordering
@@ -387,8 +391,8 @@ def r5_boundary_tie(ctx):
     okinc = False
     for inc in incs:
         if isinstance(inc.value, ast.Call) and astx.u(inc.value.func) == "len" and pm.get(inc) is loop:
-            grp = astx.u(inc.value.args[0])
-            if any(astx.u(c.args[0]) == grp and pm.get(pm.get(c)) is loop for c in apps if c.args):
+            grp = Ni.key(inc.value.args[0])
+            if any(Ni.key(c.args[0]) == grp and pm.get(pm.get(c)) is loop for c in apps if c.args):
                 okinc = re.fullmatch(rf"{p_rank}\[\w+\]", grp) is not None
     ctx.check(okinc, f, loop, "counter += len(group) for the group appended to elected",
               "count tracks the number of candidates elected so far",
@@ -399,6 +403,10 @@ def r5_boundary_tie(ctx):
     for r in astx.raises_in(f.node):
         if astx.enclosing(r, pm, ast.While) is loop:
             tie_raises.append(r)
+    tb_calls = astx.calls_in(f.node, "tiebreak_set")
+    if tb_calls and all(astx.enclosing(c, pm, ast.While) is not loop for c in tb_calls):
+        ctx.undecided(f, loop, "selector shape", "the boundary tie is resolved outside the election loop: not the append / overshoot arrangement these clauses describe")
+        return
     if not tie_raises:
         ctx.violated(f, loop, "unbroken boundary tie raises ValueError", "no raise inside the election loop: an unbroken tie returns some result")
     for r in tie_raises:
@@ -424,8 +432,8 @@ def r5_boundary_tie(ctx):
             if isinstance(v, ast.Call) and astx.call_name(v) == "tiebreak_set":
                 tb = prog.find_func("tiebreak_set")
                 b = astx.bind_args(v, tb.params)
-                okc = (astx.u(b.get(tb.params[0])) == astx.u(tied) and astx.is_name(b.get(tb.params[1]), p_prof)
-                       and astx.is_name(b.get(tb.params[2]), p_tb) and re.fullmatch(rf"{p_rank}\[\w+\]", astx.u(tied)) is not None)
+                okc = (Ni.key(b.get(tb.params[0])) == Ni.key(tied) and astx.is_name(b.get(tb.params[1]), p_prof)
+                       and astx.is_name(b.get(tb.params[2]), p_tb) and re.fullmatch(rf"{p_rank}\[\w+\]", Ni.key(tied)) is not None)
                 detail = f"third component ({astx.u(tied)}, {astx.u(v)})"
             else:
                 detail = "resolution is not the result of tiebreak_set(tied group, profile, tiebreak)"
@@ -455,7 +463,6 @@ def _singleton_pick_base(prog, f, x):
     return x
 
 
-@shape_rule
 def r6_bookkeeping(ctx):
     prog = ctx.prog
     N_sites = 0
@@ -647,6 +654,51 @@ def r8_prerequisites(ctx):
         ctx.vanished(f"prerequisite obligations: only {n}")
 
 
+def r9_finish_reachable(ctx):
+    """Termination of count-down rules: a step whose finishing branch is guarded by an EQUALITY between the number of
+    candidates still standing and m terminates only if every other round lowers that number by exactly one.  A round
+    that can strike several candidates at once can step over m, after which the equality never holds and
+    _run_election loops forever."""
+    prog = ctx.prog
+    n = 0
+    for f in elect.step_functions(prog):
+        pm = astx.parents(f.node)
+        N = Normalizer(f.node, inline=False)
+        for t in (x for x in astx.walk_own(f.node) if isinstance(x, ast.If)):
+            c = t.test
+            if not (isinstance(c, ast.Compare) and len(c.ops) == 1 and isinstance(c.ops[0], ast.Eq)):
+                continue
+            sides = [c.left, c.comparators[0]]
+            cnt = next((x for x in sides if isinstance(x, ast.Name)), None)
+            if cnt is None or not any(astx.is_self_attr(x, "m") for x in sides):
+                continue
+            cd = astx.unique_def(f.node, cnt.id)
+            if cd is None:
+                continue
+            # the table the count is taken from, and the per-round writes into it
+            tables = {x.attr for x in ast.walk(cd) if isinstance(x, ast.Attribute) and astx.is_name(x.value, "self")}
+            marks = [st for st in astx.walk_own(f.node) if isinstance(st, ast.Assign) and isinstance(st.targets[0], ast.Subscript)
+                     and isinstance(st.targets[0].value, ast.Attribute) and astx.is_name(st.targets[0].value.value, "self") and st.targets[0].value.attr in tables]
+            for mk in marks:
+                n += 1
+                lp = astx.enclosing(mk, pm, ast.For)
+                several = None
+                if lp is not None and isinstance(lp.iter, ast.Name):
+                    defs = astx.defs_of(f.node, lp.iter.id)
+                    grows = [x for x in astx.calls_in(f.node, "append") if astx.is_name(x.func.value, lp.iter.id)]
+                    multi = [dv for _, dv in defs if isinstance(dv, (ast.ListComp, ast.GeneratorExp)) or (isinstance(dv, ast.Call) and astx.u(dv.func) in ("list", "sorted"))]
+                    if multi or len(grows) > 1:
+                        several = f"`{lp.iter.id}` is built by `{astx.u(multi[0])[:70]}`" + (f" and {len(grows)} append(s)" if grows else "") if multi else f"`{lp.iter.id}` grows by {len(grows)} appends"
+                if several:
+                    ctx.violated(f, t, f"{f.short}: finishing test `{astx.u(c)}` can be stepped over",
+                                 f"the round marks every member of a collection at once ({several}), so `{cnt.id}` can drop from above m to below m "
+                                 f"without ever equalling it; the finishing branch is then unreachable and the election never terminates")
+                else:
+                    ctx.ok(f, t, f"{f.short}: finishing test `{astx.u(c)}` is reached", "one candidate is struck per round")
+    if n < 1:
+        ctx.vanished("count-down finishing tests: none found")
+
+
 RULES = [
     ("C01.R1", r1_definite_assignment, 60, "no unbound local on a feasible path of election code (predicate-refined definite assignment)"),
     ("C01.R2", r2_progress, 12, "every recording step path appends a state; single-round rules exactly one; only _run_election records"),
@@ -655,6 +707,7 @@ RULES = [
     ("C01.R5", r5_boundary_tie, 4, "unbroken boundary tie => ValueError; loop stops at the first index reaching m; resolution returned"),
     ("C01.R6", r6_bookkeeping, 12, "candidates removed from the profile = candidates recorded as elected/eliminated"),
     ("C01.R8", r8_prerequisites, 10, "prerequisites: F2 (strict resolutions), selector split, quota formulas, Alaska's two STV constructions agree"),
+    ("C01.R9", r9_finish_reachable, 1, "a finishing test that is an equality on a count-down is reached: no round strikes several candidates at once"),
     ("C01.R7", r7_plurality_veto_shape, 10, "PluralityVeto veto mechanics: final-round test, one point off the last place, stop at <= 0, rotation, bookkeeping"),
 ]
 
